@@ -1,7 +1,7 @@
 /-
   Lemmas about the stager (BroodModel.Sched) over the *generated* tables.
 -/
-import BroodModel.Sched
+import BroodModel.SchedSpec
 import BroodModel.Generated.Tables
 
 set_option linter.unusedSimpArgs false
@@ -51,10 +51,6 @@ theorem resVK_noIdent (l : List (Nat × Bool)) : NoIdent (l.map resVK) := by
   simp only [resVK]
   cases q.2 <;> simp
 
-/-- Specification of "the new claims conflict with `u`'s claims". -/
-def claimsConflict (u new : List (Nat × VK)) : Bool :=
-  new.any (fun p => conflictKinds p.2 (oldOf u p.1))
-
 theorem oldOf_noIdent {u : List (Nat × VK)} (hu : NoIdent u) (c : Nat) : oldOf u c ≠ .claimed .ident := by
   unfold oldOf
   cases h : u.find? (fun p => p.1 == c) with
@@ -92,11 +88,6 @@ theorem claimsDecision_eq {new : List (Nat × VK)} (hn : NoIdent new) (us : List
     by_cases hc : claimsConflict u new
     · simp [hc]
     · simp [hc, ih']
-
-/-- Spec-level conflict of a new task with a stage: components or resources. -/
-def stageConflict (stage : List Task) (t : Task) : Bool :=
-  stage.any (fun u => claimsConflict u.claims t.claims) ||
-  stage.any (fun u => claimsConflict (u.res.map resVK) (t.res.map resVK))
 
 /-- **The stager's decision is exactly the specification**: cut iff the new task conflicts, on a
 component or a resource, with some task already in the stage. -/
